@@ -289,64 +289,7 @@ func checkC03(c *Ctx) {
 	c.Rule("C03.R6", "the lease deadline SQLite stores is representable: before now.Add(ttl) is converted to Unix nanoseconds for lease_until, the deadline is compared with a fixed instant or the TTL with a constant (clamped), so an over-long TTL cannot wrap into an already expired lease")
 	checkLeaseDeadlineRepresentable(c, "C03.R6")
 	c.Rule("C03.R5", "a lease is taken away without its holder only by the sweep, whose statement tests state='leased' and lease_until <= now (memory: the LeaseUntil expiry edge)")
-	nSweep := 0
-	seenSweep := map[*SQLStmt]bool{}
-	for _, be := range []string{"sqlite", "postgres"} {
-		for _, t := range p.sqlTransitions(be) {
-			// holder operations are fenced by the presented lease id (C04.R1) and operator cancels are named in the
-			// statement; every other statement that can take a row out of leased — reachable from Dequeue, from any
-			// other Store method, or from nowhere a Store method reaches (constructors, start-up recovery) — must be the sweep
-			holderOrOperator := storeLeaseMethods[strings.TrimSuffix(t.Root, "Batch")] || strings.HasPrefix(t.Root, "Cancel")
-			if holderOrOperator || seenSweep[t.Stmt] || t.Kind == "insert" || t.To == "leased" {
-				continue
-			}
-			if t.HasFrom && t.From&ssParse("leased") == 0 {
-				continue // prune of non-leased rows
-			}
-			seenSweep[t.Stmt] = true
-			nSweep++
-			op, operand, ok := conjOn(t.Stmt, "lease_until")
-			k := "other:unbound"
-			if ok {
-				if ex := m.operandExpr(t.Stmt, operand); ex != nil {
-					k, _ = p.ClockKind(ex, t.Stmt.Decl)
-				}
-			}
-			c.Check(ok && op == "<=" && k == "now" && t.HasFrom && t.From == ssParse("leased") && t.To == "queued", "C03.R5", m.Key(t.Stmt)+":sweep-guard", t.Pos,
-				"sweep: state='leased' AND lease_until <= now → queued",
-				fmt.Sprintf("a statement (reachable from "+t.Root+") can take rows out of leased (from %s to %q) without the guard lease_until <= now (found: lease_until %s %s, %s)", t.From, t.To, op, m.R(t.Stmt, operand), k))
-		}
-	}
-	for i := range sf.Events {
-		e := &sf.Events[i]
-		if e.Root != "Dequeue" || e.Kind != "store" || e.From&ssParse("leased") == 0 || e.ToStr == "{leased}" {
-			continue
-		}
-		nSweep++
-		// the call chain from Dequeue must pass an expired edge: in the function that calls the storing helper (or stores itself)
-		holder := e.Fn
-		site := e.Instr
-		if cs := p.CallSitesOf(e.Fn); len(cs) > 0 && e.Fn.Name() != "Dequeue" {
-			okAll := true
-			n := 0
-			for _, call := range cs {
-				if !strings.Contains(e.Chain, call.Parent().Name()) {
-					continue
-				}
-				n++
-				exp := expiredEdges(call.Parent())
-				if okp, _ := p.MustPass(call.Parent(), call, exp); !okp || len(exp) == 0 {
-					okAll = false
-				}
-			}
-			c.Check(okAll && n > 0, "C03.R5", "memory.Dequeue:sweep-guard via "+e.Fn.Name(), p.InstrPos(site), "expiry store only behind Before(now, LeaseUntil)==false", "memory sweep releases a lease without the LeaseUntil expiry test")
-			continue
-		}
-		exp := expiredEdges(holder)
-		okp, _ := p.MustPass(holder, site, exp)
-		c.Check(okp && len(exp) > 0, "C03.R5", "memory.Dequeue:sweep-guard", p.InstrPos(site), "expiry store only behind Before(now, LeaseUntil)==false", "memory sweep releases a lease without the LeaseUntil expiry test")
-	}
-	c.Floor("C03.R5", "sweep_constructs", nSweep, 3)
+	checkSweepGuard(c, "C03.R5")
 	// memory: lease under mutex is C02.R5; restate for the Dequeue method
 	lm := p.lockAnalysis("queue", "MemoryStore", p.mutexField("queue", "MemoryStore"))
 	okLock := true
@@ -681,4 +624,73 @@ func (p *Program) derivesFromCall(v ssa.Value, pred func(ssa.CallInstruction) bo
 		return p.derivesFromCall(x.X, pred, seen, depth+1)
 	}
 	return false
+}
+
+// checkSweepGuard: the only construct that takes a lease away without the holder's lease id is the sweep, and it tests
+// the lease deadline (C03.R5; claimed as C02.R10 for the clause "leased→queued only by nack or lease expiry").
+func checkSweepGuard(c *Ctx, rule string) {
+	p := c.P
+	m := p.SQL()
+	tx := p.Tx()
+	p.memoryTransitions()
+	sf := p.memFlow
+	_, _ = m, tx
+	nSweep := 0
+	seenSweep := map[*SQLStmt]bool{}
+	for _, be := range []string{"sqlite", "postgres"} {
+		for _, t := range p.sqlTransitions(be) {
+			// holder operations are fenced by the presented lease id (C04.R1) and operator cancels are named in the
+			// statement; every other statement that can take a row out of leased — reachable from Dequeue, from any
+			// other Store method, or from nowhere a Store method reaches (constructors, start-up recovery) — must be the sweep
+			holderOrOperator := storeLeaseMethods[strings.TrimSuffix(t.Root, "Batch")] || strings.HasPrefix(t.Root, "Cancel")
+			if holderOrOperator || seenSweep[t.Stmt] || t.Kind == "insert" || t.To == "leased" {
+				continue
+			}
+			if t.HasFrom && t.From&ssParse("leased") == 0 {
+				continue // prune of non-leased rows
+			}
+			seenSweep[t.Stmt] = true
+			nSweep++
+			op, operand, ok := conjOn(t.Stmt, "lease_until")
+			k := "other:unbound"
+			if ok {
+				if ex := m.operandExpr(t.Stmt, operand); ex != nil {
+					k, _ = p.ClockKind(ex, t.Stmt.Decl)
+				}
+			}
+			c.Check(ok && op == "<=" && k == "now" && t.HasFrom && t.From == ssParse("leased") && t.To == "queued", rule, m.Key(t.Stmt)+":sweep-guard", t.Pos,
+				"sweep: state='leased' AND lease_until <= now → queued",
+				fmt.Sprintf("a statement (reachable from "+t.Root+") can take rows out of leased (from %s to %q) without the guard lease_until <= now (found: lease_until %s %s, %s)", t.From, t.To, op, m.R(t.Stmt, operand), k))
+		}
+	}
+	for i := range sf.Events {
+		e := &sf.Events[i]
+		if e.Root != "Dequeue" || e.Kind != "store" || e.From&ssParse("leased") == 0 || e.ToStr == "{leased}" {
+			continue
+		}
+		nSweep++
+		// the call chain from Dequeue must pass an expired edge: in the function that calls the storing helper (or stores itself)
+		holder := e.Fn
+		site := e.Instr
+		if cs := p.CallSitesOf(e.Fn); len(cs) > 0 && e.Fn.Name() != "Dequeue" {
+			okAll := true
+			n := 0
+			for _, call := range cs {
+				if !strings.Contains(e.Chain, call.Parent().Name()) {
+					continue
+				}
+				n++
+				exp := expiredEdges(call.Parent())
+				if okp, _ := p.MustPass(call.Parent(), call, exp); !okp || len(exp) == 0 {
+					okAll = false
+				}
+			}
+			c.Check(okAll && n > 0, rule, "memory.Dequeue:sweep-guard via "+e.Fn.Name(), p.InstrPos(site), "expiry store only behind Before(now, LeaseUntil)==false", "memory sweep releases a lease without the LeaseUntil expiry test")
+			continue
+		}
+		exp := expiredEdges(holder)
+		okp, _ := p.MustPass(holder, site, exp)
+		c.Check(okp && len(exp) > 0, rule, "memory.Dequeue:sweep-guard", p.InstrPos(site), "expiry store only behind Before(now, LeaseUntil)==false", "memory sweep releases a lease without the LeaseUntil expiry test")
+	}
+	c.Floor(rule, "sweep_constructs", nSweep, 3)
 }
